@@ -31,7 +31,10 @@ def pool():
     for o in one: P.append(["m", [hexs(b"a"), o]])
     P += [["m", [hexs(b"a"), ["a", ["i", "1"]]]], ["m", [hexs(b"a"), ["i", "1"]], [hexs(b"b"), ["i", "2"]]],
           ["m", [hexs(b"a"), ["f", "7ff8000000000001"]]], ["m", [hexs(b"b"), ["i", "1"]]]]
-    P += [["sm"], ["sm", [hexs(b"a"), ["i", "1"]]], ["sm", [hexs(b"a"), ["u", "1"]], ]]
+    # maps of equal size whose key sets differ, the keys of one side holding undefined (a missing key reads as undefined)
+    P += [["m", [hexs(b"a"), ["n"]]], ["m", [hexs(b"b"), ["n"]]], ["m", [hexs(b"x"), ["n"]], [hexs(b"y"), ["i", "1"]]], ["m", [hexs(b"z"), ["i", "2"]], [hexs(b"y"), ["f", f(1.0)]]],
+          ["a", ["m", [hexs(b"a"), ["n"]]]], ["a", ["m", [hexs(b"b"), ["n"]]]]]
+    P += [["sm"], ["sm", [hexs(b"a"), ["i", "1"]]], ["sm", [hexs(b"a"), ["u", "1"]], ], ["sm", [hexs(b"a"), ["n"]]], ["sm", [hexs(b"b"), ["n"]]]]
     P += [["e", "1", hexs(b"E"), hexs(b"m")], ["e", "2", hexs(b"E"), hexs(b"m")],
           ["re", "1", "1", hexs(b"E"), hexs(b"m")], ["re", "2", "1", hexs(b"E"), hexs(b"m")], ["re", "3", "2", hexs(b"E"), hexs(b"m")]]
     P += [["fn", hexs(b"f1")], ["fn", hexs(b"f2")]]
